@@ -82,6 +82,23 @@ theorem re_trace_conjTranspose_mul_herm (Q K : Matrix n n ℂ) (hK : K.IsHermiti
     (Qᴴ * K).trace.re = (Q * K).trace.re := by
   rw [re_trace_conjTranspose_mul, hK.eq, Matrix.trace_mul_comm]
 
+/-- every complex number is its modulus times a phase -/
+theorem exists_phase (c : ℂ) : ∃ u : ℂ, u * star u = 1 ∧ c = (‖c‖ : ℂ) * u := by
+  by_cases hc : c = 0
+  · exact ⟨1, by simp, by simp [hc]⟩
+  · have hn : (‖c‖ : ℂ) ≠ 0 := by exact_mod_cast (norm_ne_zero_iff.mpr hc)
+    refine ⟨c / ‖c‖, ?_, by field_simp⟩
+    rw [star_div₀, Complex.star_def, Complex.conj_ofReal, div_mul_div_comm, Complex.mul_conj,
+      Complex.normSq_eq_norm_sq]
+    push_cast
+    field_simp
+
+/-- `Re tr((c J)ᴴ (u Z)) = Re(c̄ u tr(Jᴴ Z))` -/
+theorem re_trace_smul_smul (c u : ℂ) (J Z : Matrix n n ℂ) :
+    ((c • J)ᴴ * (u • Z)).trace.re = (star c * u * (Jᴴ * Z).trace).re := by
+  rw [Matrix.conjTranspose_smul, Matrix.smul_mul, Matrix.mul_smul, Matrix.trace_smul, Matrix.trace_smul,
+    smul_eq_mul, smul_eq_mul, mul_assoc]
+
 variable [DecidableEq n]
 
 /-- `Re tr(T ρ) ≤ c · Re tr ρ` when `c·1 − T ⪰ 0` and `ρ ⪰ 0` -/
@@ -143,6 +160,7 @@ theorem psd_block_phase {A B Z : Matrix n n ℂ} (u : ℂ) (hu : u * star u = 1)
     rw [Matrix.conjTranspose_one, Matrix.mul_one, Matrix.one_mul]
   rwa [e1, e2, e3] at h2
 
+omit [Fintype n] [DecidableEq n] in
 /-- exchanging the two diagonal blocks -/
 theorem psd_block_swap {A B Z W : Matrix n n ℂ} (h : (fromBlocks A Z W B).PosSemidef) :
     (fromBlocks B W Z A).PosSemidef := by
@@ -157,7 +175,7 @@ theorem psd_scalar_sub_of_entry_sum {T : Matrix n n ℂ} (hT : T.IsHermitian) :
     ext a b
     by_cases hab : a = b
     · subst hab; simp [Matrix.conjTranspose_apply, Matrix.smul_apply]
-    · simp [Matrix.conjTranspose_apply, Matrix.smul_apply, Matrix.one_apply, hab, Ne.symm hab]
+    · simp [Matrix.conjTranspose_apply, Matrix.smul_apply, hab, Ne.symm hab]
   · have hrow : ∑ j, ‖T i j‖ ≤ ∑ a, ∑ j, ‖T a j‖ :=
       Finset.single_le_sum (f := fun a => ∑ j, ‖T a j‖) (fun a _ => Finset.sum_nonneg fun j _ => norm_nonneg _)
         (Finset.mem_univ i)
@@ -169,7 +187,7 @@ theorem psd_scalar_sub_of_entry_sum {T : Matrix n n ℂ} (hT : T.IsHermitian) :
           = ∑ j ∈ Finset.univ.erase i, ‖T i j‖ := by
       refine Finset.sum_congr rfl fun j hj => ?_
       have hne : i ≠ j := (Finset.ne_of_mem_erase hj).symm
-      simp [Matrix.sub_apply, Matrix.smul_apply, Matrix.one_apply, hne]
+      simp [Matrix.sub_apply, Matrix.smul_apply, hne]
     rw [hoff]
     simp only [Matrix.sub_apply, Matrix.smul_apply, Matrix.one_apply_eq, smul_eq_mul, mul_one, Complex.sub_re,
       Complex.ofReal_re]
